@@ -66,6 +66,9 @@ def run(ctx):
         facts = ctx.facts(cfg)
         roles = Roles(facts)
         s2n = strnum.check(ctx, facts, cfg, clause="K4")
+        # the string form through which containers are compared (structure as in C16 K4)
+        from .c16 import to_string_role, string_form_clauses
+        string_form_clauses(ctx, facts, roles, to_string_role(facts), cfg, "K5")
         comparators = {}
         for op in ("<", "<=", ">", ">="):
             b, e = roles.fn_of(op)
@@ -144,6 +147,7 @@ def run(ctx):
             mats[op] = m
         # ---------------- K3
         tp = to_primitive_number(facts, roles, comparators)
+        to_primitive_composition(ctx, facts, roles, comparators, tp, cfg)
         if tp is not None:
             want = {"Null": "Some(0.0)", "Bool": "Some(1.0)|Some(0.0)", "Number": "as_f64", "String": "None", "Array": "None", "Object": "None"}
             for v in facts.variants(VALUE):
@@ -176,6 +180,34 @@ def run(ctx):
                                     c = op_const(st["rv"]["ops"][0])
                                     ok = c is not None and const_value(c) == 1.0
                 ctx.check(ok, "K3.to-primitive-number", "%s (%s)" % (v, cfg), "number-hint conversion of %s yields %s; expected %s" % (v, g, want[v]), where=tp.where(), fn=tp.key, nontrivial=True, sample={"kind": v, "conversion": g})
+
+
+def to_primitive_composition(ctx, facts, roles, comparators, tpn, cfg):
+    """The to-primitive function (number hint) is exactly: number-hint conversion, else the string form."""
+    cands = set()
+    for f in comparators.values():
+        for bi, t in f.calls():
+            c = callee_of(t)
+            if c and c["local"] and "Primitive" in facts.items.get(c["key"], {}).get("output", ""):
+                cands.add(c["key"])
+    ctx.check(len(cands) == 1, "K3.to-primitive-shared", "the four comparators share one to-primitive function (%s)" % cfg, "%d to-primitive functions" % len(cands), where="", nontrivial=True)
+    if len(cands) != 1:
+        return
+    tp = facts.body(cands.pop())
+    unit = roles.unit(tp.key)
+    local = sorted({callee_of(t)["key"] for b in unit for _, t in b.calls() if callee_of(t) and callee_of(t)["local"]})
+    strform = [k for k in local if facts.items.get(k, {}).get("output") == "std::string::String" and facts.items[k].get("inputs") == ["&serde_json::Value"]]
+    allowed = set(strform) | ({tpn.key} if tpn is not None else set())
+    extra = [k for k in local if k not in allowed]
+    ctx.check(not extra and len(strform) == 1 and tpn is not None and tpn.key in local, "K3.to-primitive-composition", "to-primitive = number-hint conversion, else the string form — nothing else (%s)" % cfg,
+              "to-primitive also consults %s: some values would be compared as numbers although ECMAScript compares their string form (or vice versa)" % [k.split("::", 1)[1] for k in extra], where=tp.where(), fn=tp.key, nontrivial=True,
+              sample={"calls": [k.split("::", 1)[1] for k in local]})
+    for b in unit:
+        for bi, t in b.calls():
+            c = callee_of(t)
+            if c and c["local"] and c["key"] in allowed:
+                a = strip_refs(b.xtrace(t["args"][0]))
+                ctx.check(a == ("arg", 1), "K3.to-primitive-whole-value", "%s is applied to the value itself (%s, bb%d)" % (c["key"].rsplit("::", 1)[1], cfg, bi), "applied to %s" % show_expr(a)[:60], where=b.where(bi), fn=b.key)
 
 
 def to_primitive_number(facts, roles, comparators):
